@@ -13,7 +13,7 @@
 (* in between (TeXStep is one label).                                      *)
 (*                                                                         *)
 (* Checked:                                                                *)
-(*  Spelling        every state of TeX's loop spells the input word        *)
+(*  Spelling        every lookup state of TeX's loop spells the input word *)
 (*  RefinesCursor   at `done` the items RunIter yields from the compiled   *)
 (*                  table (LigKernImpl) are the nodes TeX appended         *)
 (*  NoHitIfDone, HitIfBound, PairExact, LoopReportExact                    *)
@@ -93,8 +93,8 @@ RefinesCursor ==
       /\ IF CheckFlags THEN im.out = st.out ELSE SameItems(st.out, im.out)
 
 NoHitIfDone == st.pc = "done" => ~hit
-HitIfBound  == (n = Bound /\ st.pc # "done") => hit
-PairExact   == (IsPairConfig /\ hit) => ThePair \in lp
+HitIfBound  == (n = Bound /\ st.pc # "done") => (hit \/ AtLoopingPair)
+PairExact   == (IsPairConfig /\ (hit \/ AtLoopingPair)) => ThePair \in lp
 \* evaluated once per program
 LoopReportExact == (n = 0 /\ nl = 0 /\ word = <<MinLetter>>) => BlockedPairs(prog) = lp
 =============================================================================
